@@ -266,6 +266,66 @@ def check(cls, variant, keys, accept, report, rng, obs):
     return problems, detail, desc
 
 
+def x5t_history(keys_mode, accept, obs):
+    ''' Several signed bundles through ONE receiver: certificate chains that validated once are remembered (x5t look-up), but each
+    bundle is judged at its own creation time.  :return: list of (kind, text, detail) '''
+    import datetime
+    from cryptography.hazmat.primitives import serialization
+    from vf.world.sim import Sim
+    from vf import sec_harness as sh
+    (cert, key) = sh.pki()['variants']['good']
+    der = cert.public_bytes(serialization.Encoding.DER)
+
+    def dtn_ms(year, month=6):
+        return int((datetime.datetime(year, month, 1) - datetime.datetime(2000, 1, 1)).total_seconds()) * 1000
+
+    def signed(ctime, seq, x5t_only, payload):
+        pri = dict(version=7, flags=0, crc_type=1, dest='dtn://dst-node/app', src='dtn://src-node/app', report_to='dtn:none', create_time=ctime, seqno=seq,
+                   lifetime=10 ** 12, frag_offset=None, total_adu_len=None, crc=None)
+        pay = dict(type=1, num=1, flags=0, crc_type=1, data=payload, crc=None)
+        sec = dict(type=11, num=2, flags=0, crc_type=1, data=b'', crc=None)
+        bundle = dict(primary=pri, blocks=[sec, pay])
+        scope = {0: 1, -1: 1}
+        ext_aad = cb.external_aad(bundle, sec, pay, scope, b'', bpv7.eid_to_item(sh.SRC_NODE))
+        result = cb.make_sign1_result(-7, key, [der], ext_aad, payload, x5t_only=x5t_only)
+        sec['data'] = cb.encode_asb(dict(targets=[1], context_id=3, flags=1, source=sh.SRC_NODE, params=[(5, scope)], results=[[result]]))
+        return bpv7.encode(bundle)
+
+    steps = [('x5t before the chain was ever seen', dtn_ms(2030), True), ('x5chain, created within validity', dtn_ms(2025), False),
+             ('x5t only, created within validity (chain known by now)', dtn_ms(2031), True),
+             ('x5t only, created after the certificate expired', dtn_ms(2041), True), ('x5chain, created after the certificate expired', dtn_ms(2042), False),
+             ('x5chain, created before the certificate was valid', dtn_ms(2019), False), ('x5t only, created within validity again', dtn_ms(2033), True)]
+    sim = Sim(0, 'eager')
+    dst = sh.receiver_node(sim, keys_mode, accept=accept)
+    oracle = sh.oracle_keys(keys_mode)
+    problems = []
+    for idx, (label, ctime, x5t_only) in enumerate(steps):
+        payload = b'signed-%d' % idx
+        data = signed(ctime, idx, x5t_only, payload)
+        verdict, why = cb.verify_bundle(data, oracle)
+        if verdict == 'ok' and not x5t_only:
+            oracle.known_certs.append(der)
+        before = len(dst.delivered())
+        err = dst.recv(data)
+        sim.settle(5000)
+        obs['bundles'] += 1
+        got = len(dst.delivered()) - before
+        detail = dict(bundle=data.hex(), oracle=(verdict, why), step=label)
+        if err is not None or sim.world.callback_errors:
+            problems.append(('raised', 'x5t history step "%s": exception escaped the receive path' % label, detail))
+            break
+        if verdict == 'ok':
+            obs['expect_deliver'] += 1
+            if got != 1:
+                problems.append(('not-delivered', 'x5t history step "%s": verifies independently but %d deliveries' % (label, got), detail))
+        else:
+            obs['expect_fail'] += 1
+            if got:
+                problems.append(('delivered', 'x5t history step "%s": delivered although the block does not verify (%s)' % (label, why[:70]), detail))
+    obs['x5t_histories'] = obs.get('x5t_histories', 0) + 1
+    return problems
+
+
 def cases(tier, seed):
     out = []
     idx = 0
@@ -274,6 +334,7 @@ def cases(tier, seed):
         for variant in variants:
             out.append(dict(id='%s-%s' % (cls, variant), cls=cls, variant=variant, seed=seed * 37 + idx, reps=(30 if tier == 'thorough' else 1)))
             idx += 1
+    out.append(dict(id='x5t-history', cls='x5t-history', variant='bib', seed=seed, reps=1))
     return out
 
 
@@ -286,6 +347,14 @@ def run_case(case):
     sample = None
     evaluations = 0
     try:
+        if case['cls'] == 'x5t-history':
+            for keys in ('all', 'none'):
+                for accept in (False, True):
+                    for (kind, text, detail) in x5t_history(keys, accept, obs):
+                        violations.append(dict(key=None, what='[%s] keys=%s accept=%s: %s' % (kind, keys, accept, text), detail=detail))
+                    classes.add('x5t-history|%s|%s' % (keys, accept))
+                    evaluations += 1
+            case = dict(case, reps=0)
         for rep in range(case['reps']):
             for keys in ('all', 'wrong', 'none'):
                 for accept in (False, True):
